@@ -79,7 +79,8 @@ impl<S: CredentialStore + Sync + Send, U: UserValidationMethod + Sync + Send> U2
             .chain(public_key.encode()) // 5. public key
             .collect::<Vec<u8>>();
         let signature_singleton: p256::ecdsa::Signature = signing_key.sign(&signature_target);
-        let signature = signature_singleton.to_vec();
+        // The raw message format carries the signature in its ANSI X9.62 (DER) encoding
+        let signature = signature_singleton.to_der().as_bytes().to_vec();
 
         let attestation_certificate = Vec::new();
 
